@@ -74,6 +74,8 @@ def _one(args) -> Dict[str, Any]:
             err = None
         except AnalysisError as e:
             new, gone, err = [], [], str(e)
+        except Exception as e:  # a crash of a rule on a variant is an analysis error of that run
+            new, gone, err = [], [], f"internal error: {type(e).__name__}: {e}"
         if v.expect == "fire":
             hit = [f for f in new if not v.rule or f.rule == v.rule]
             if hit:
